@@ -20,13 +20,13 @@ func Gosched() {
 		rr.Gosched()
 	}
 }
-func GOMAXPROCS(n int) int { return NumProcs }
-func NumCPU() int          { return NumProcs }
-func NumGoroutine() int    { return rr.NumGoroutine() }
-func KeepAlive(x any)      { rr.KeepAlive(x) }
-func SetFinalizer(obj any, finalizer any) {}
+func GOMAXPROCS(n int) int                                         { return NumProcs }
+func NumCPU() int                                                  { return NumProcs }
+func NumGoroutine() int                                            { return rr.NumGoroutine() }
+func KeepAlive(x any)                                              { rr.KeepAlive(x) }
+func SetFinalizer(obj any, finalizer any)                          {}
 func Caller(skip int) (pc uintptr, file string, line int, ok bool) { return rr.Caller(skip + 1) }
-func GC() {}
+func GC()                                                          {}
 
 const (
 	GOOS   = rr.GOOS
